@@ -250,6 +250,10 @@ var foldOps = []foldOpInfo{
 	{"logicalAnd", js_ast.BinOpLogicalAnd}, {"logicalOr", js_ast.BinOpLogicalOr}, {"nullish", js_ast.BinOpNullishCoalescing},
 }
 
+var foldOpText = map[string]string{"add": "+", "sub": "-", "mul": "*", "div": "/", "rem": "%", "pow": "**", "shl": "<<", "shr": ">>", "ushr": ">>>",
+	"band": "&", "bor": "|", "bxor": "^", "lt": "<", "gt": ">", "le": "<=", "ge": ">=", "looseEq": "==", "strictEq": "===", "looseNe": "!=", "strictNe": "!==",
+	"logicalAnd": "&&", "logicalOr": "||", "nullish": "??"}
+
 var foldOtherOps = []js_ast.OpCode{js_ast.BinOpComma, js_ast.BinOpIn, js_ast.BinOpInstanceof, js_ast.BinOpAssign, js_ast.BinOpAddAssign}
 
 // the copy of js_ast.approximatePrintedIntCharCount that serves as the oracle for the `should` operation
@@ -597,7 +601,14 @@ func init() {
 						e.stat("bin-" + name + "-negzero")
 					}
 				}
-				e.emit(fmt.Sprintf("fold\tbin\t%s\t%s\t%s\t%s", name, l.wire, rr.wire, oracle), res)
+				opLine := fmt.Sprintf("fold\tbin\t%s\t%s\t%s\t%s", name, l.wire, rr.wire, oracle)
+				if tok, ok := foldOpText[name]; ok && l.src != "" && rr.src != "" {
+					// end-to-end witness: the folded constant must print what the engine computes
+					src := fmt.Sprintf("\"use strict\";\nconst k1 = (%s) %s (%s);\np(1, k1, Object.is(k1, -0), typeof k1);\nenumlike: { const k2 = [(%s) %s (%s)]; p(2, k2[0]); }\n", l.src, tok, rr.src, l.src, tok, rr.src)
+					e.emitW(opLine, res, "c03-prog", map[string]string{"source": src, "opt_name": "ms"})
+				} else {
+					e.emit(opLine, res)
+				}
 			case c < 11: // ShouldFoldBinaryOperatorWhenMinifying
 				op := foldOps[r.Intn(len(foldOps))]
 				if r.Chance(1, 3) {
@@ -752,7 +763,12 @@ func init() {
 				} else {
 					e.stat("un-" + uop.name + "-" + m + "-folded")
 				}
-				e.emit(fmt.Sprintf("fold\tun\t%s\t%s\t%s", uop.name, m, o.wire), res)
+				optName := ""
+				if minify {
+					optName = "ms"
+				}
+				e.emitW(fmt.Sprintf("fold\tun\t%s\t%s\t%s", uop.name, m, o.wire), res, "c03-prog",
+					map[string]string{"source": fmt.Sprintf("\"use strict\";\nconst k1 = %s(%s);\np(1, k1, Object.is(k1, -0), typeof k1);\n", uop.src, o.src), "opt_name": optName})
 			}
 		}
 	}
